@@ -81,9 +81,30 @@ class ValidateAttributesOverrides(RelativeHandlerInterface):
                 if cls.overrides(attr, base_attr):
                     cls.validate_override(target, attr, base_attr)
                 else:
+                    name = attr.name
                     cls.resolve_conflict(attr, base_attr)
+                    if attr.name != name:
+                        cls.ensure_unique_name(target, attr, base_attrs_map)
             elif attr.is_prohibited:
                 cls.remove_attribute(target, attr)
+
+    @classmethod
+    def ensure_unique_name(
+        cls,
+        target: Class,
+        attr: Attr,
+        base_attrs_map: dict[str, list[Attr]],
+    ):
+        """Make sure a renamed attr doesn't clash with the rest attrs.
+
+        Args:
+            target: The target class instance
+            attr: The attr that was renamed
+            base_attrs_map: A mapping of qualified names to lists of parent attrs
+        """
+        reserved = {get_slug(x) for x in target.attrs if x is not attr}
+        reserved.update(base_attrs_map)
+        attr.name = ClassUtils.unique_name(attr.name, reserved)
 
     @classmethod
     def overrides(cls, a: Attr, b: Attr) -> bool:
